@@ -198,7 +198,7 @@ func (h *Hist) open(o OpenOpts, initial bool) bool {
 	}
 	h.log = l
 	h.opts = o
-	h.cov.Distinct("open_opts", fmt.Sprintf("ro=%v as=%v chk=%v rec=%v ver=%d keep=%v eager=%v", o.Readonly, o.AutoSync, o.Check, o.Recover, o.NewVer, o.KeepVer, o.Eager))
+	h.cov.Distinct("open_opts", fmt.Sprintf("ro=%v as=%v chk=%v rec=%v ver=%d keep=%v eager=%v typed=%v", o.Readonly, o.AutoSync, o.Check, o.Recover, o.NewVer, o.KeepVer, o.Eager, o.Typed))
 	return true
 }
 
